@@ -13,7 +13,7 @@ CLAUSES = {
     "lookup-single-level": "with one level the lookup stays inside the column array",
 }
 BOUNDS = {
-    "quick": "sdepth: N 1..4, arbitrary sorted C in [-1,0], hc, h symbolic (Vtransform 1: 0<=hc<=h; 2: hc>=0), 2 bathymetry cells, rho and w; s_stretch: N 1..3, theta_s in (0,10], theta_b in [0,1] / (0,4], Vstretching 1, 2 (end points), 4; z2s: N 2..4 arbitrary sorted column, any depth; N = 1",
+    "quick": "sdepth: N 1..4, arbitrary sorted C in [-1,0], hc, h symbolic (Vtransform 1: 0<=hc<=h; 2: hc>=0), 2 bathymetry cells, rho and w; 2x3 cells given as a transposed (not C-contiguous) view, N = 2; s_stretch: N 1..3, theta_s in (0,10], theta_b in [0,1] / (0,4], Vstretching 1, 2 (end points), 4; z2s: N 2..4 arbitrary sorted column, any depth; N = 1",
     "thorough": "sdepth N up to 6, s_stretch N up to 4, z2s N up to 6",
 }
 ASSUMES = ["sinh, tanh, cosh, exp are uninterpreted; only these facts are used, instantiated at the argument terms that occur: sinh/tanh odd and strictly increasing with sign, |tanh|<1, sinh(x)>x for x>0, cosh even, >=1, strictly increasing in |x|, exp>0, strictly increasing, exp(0)=1",
@@ -28,6 +28,8 @@ def scenarios(tier):
     for vt in (1, 2):
         for N in (range(1, 5) if q else range(1, 7)):
             out.append(dict(name=f"sdepth-vt{vt}-N{N}", fn="sdepth", params=dict(vt=vt, N=N), cost=N))
+        # bathymetry given as a 2-D array that is not C-contiguous (a transposed view, as slicing or transposing a grid file's h gives)
+        out.append(dict(name=f"sdepth2d-view-vt{vt}", fn="sdepth2d", params=dict(vt=vt, N=2), cost=3))
     for vs in (1, 4):
         for N in (range(1, 4) if q else range(1, 5)):
             out.append(dict(name=f"stretch-vs{vs}-N{N}", fn="stretch", params=dict(vs=vs, N=N), cost=N * 3))
@@ -38,6 +40,37 @@ def scenarios(tier):
     for N in ((2,) if q else (2, 3)):
         out.append(dict(name=f"grid-vinfo-N{N}", fn="grid_vinfo", params=dict(N=N), cost=10))
     return out
+
+
+def sdepth2d(W, p):
+    """2 x 3 cells of arbitrary depths handed over as the transposed view of a 3 x 2 array: every column belongs to its own cell"""
+    roms = W.load("ladim.ROMS")
+    N, vt = p["N"], p["vt"]
+    J, I = 2, 3
+    h = [[W.real(f"h{j}{i}", 0, 5000, lo_strict=True) for i in range(I)] for j in range(J)]
+    hc = W.real("hc", 0, 5000)
+    if vt == 1:
+        for row in h:
+            for x in row:
+                W.assume(W.le(hc, x), "Vtransform 1: hc <= h")
+    Cw = [-1] + [W.real(f"Cw{k}", -1, 0, lo_strict=True, hi_strict=True) for k in range(1, N)] + [0]
+    Cr = [W.real(f"Cr{k}", -1, 0, lo_strict=True, hi_strict=True) for k in range(N)]
+    for k in range(N):
+        W.assume(W.all([W.lt(Cw[k], Cr[k]), W.lt(Cr[k], Cw[k + 1])]), "stretching arrays interleaved and sorted")
+    hT = W.arr_nd([[h[j][i] for j in range(J)] for i in range(I)], "f")  # 3 x 2, C order
+    Hview = hT.T  # 2 x 3, not C-contiguous
+    zr = W.tolist(roms.sdepth(Hview, hc, W.arr(Cr, "f"), stagger="rho", Vtransform=vt))
+    zw = W.tolist(roms.sdepth(Hview, hc, W.arr(Cw, "f"), stagger="w", Vtransform=vt))
+    W.prove(len(zr) == N and len(zw) == N + 1 and all(len(lv) == J and all(len(r) == I for r in lv) for lv in zr + zw), "sdepth-ordered", dict(note="shape 2-D"))
+    for j in range(J):
+        for i in range(I):
+            colr = [zr[k][j][i] for k in range(N)]
+            colw = [zw[k][j][i] for k in range(N + 1)]
+            conds = [W.lt(colr[k], colr[k + 1]) for k in range(N - 1)] + [W.lt(colw[k], colw[k + 1]) for k in range(N)]
+            conds += [W.all([W.le(-h[j][i], z), W.le(z, 0)]) for z in colr + colw]
+            W.prove(W.all(conds), "sdepth-ordered", dict(cell=[j, i], Vtransform=vt, layout="transposed view"))
+            W.prove(W.all([W.eq(colw[0], -h[j][i]), W.eq(colw[N], 0)]), "sdepth-w-ends", dict(cell=[j, i], Vtransform=vt, layout="transposed view"))
+    return ("sdepth2d", vt)
 
 
 def sdepth(W, p):
